@@ -104,6 +104,8 @@ def execute(prop, plan):
         if len(pool) > 12:
             del pool[0]
 
+    ste_cache = {}
+
     def check_view(v, when):
         stats.oracle_evals += 1
         rows, ids = tables[v.base]
@@ -145,9 +147,38 @@ def execute(prop, plan):
         if not ok:
             violation("C14.attributes", when, "a per-experiment attribute of the view differs from the parent's values at the selected rows")
             return False
+        # the derived per-experiment table (single-treatment effects) is the parent's too, row for row
+        if sweep[0] % 3 != 1:
+            return True  # (the derived table is compared in every third sweep: it is the expensive one)
+        if v.base not in ste_cache:
+            try:
+                ste_cache[v.base] = bases[v.base].single_treatment_effects
+            except Exception:
+                ste_cache[v.base] = "raises"
+        parent_ste = ste_cache[v.base]
+        if not isinstance(parent_ste, str):
+            try:
+                view_ste = view.single_treatment_effects
+            except Exception as e:
+                violation("C14.attributes-raise", when + ":single_treatment_effects", f"the parent has single-treatment effects, the view raised {e!r}")
+                return False
+            if (parent_ste is None) != (view_ste is None):
+                violation("C14.attributes", when + ":single_treatment_effects", "single-treatment effects are None for the view but not the parent (or the reverse)")
+                return False
+            if parent_ste is not None:
+                want_ste = np.asarray(parent_ste, dtype=float)[want_sel]
+                got_ste = np.asarray(view_ste, dtype=float)
+                if got_ste.shape != want_ste.shape or f64_bits(got_ste).tolist() != f64_bits(want_ste).tolist():
+                    violation("C14.attributes", when + ":single_treatment_effects",
+                              "the view's single-treatment effects are not the parent's values at the selected rows")
+                    return False
         return True
 
+    sweep = [0]
+
     def check_all(when):
+        ste_cache.clear()  # the parents may have been edited since the last sweep
+        sweep[0] += 1
         for j, v in enumerate(pool):
             log.ev("view", j, v.base, sorted(v.idx))
             check_view(v, when)
@@ -239,6 +270,7 @@ def execute(prop, plan):
                     violation("C14.plates", "plates", f"{len(pl)} plate views for {len(pids)} plate ids")
                 for p, view in zip(pids, pl):
                     tmp = V(view, b, [j for j, x in enumerate(ids) if x[2] == p])
+                    ste_cache.clear()
                     if not check_view(tmp, "plates"):
                         break
                     try:
